@@ -7,7 +7,7 @@ HOOK_COMMITS = subprocess.run(["git","-C","/repo","log","--format=%h %s","--grep
 CLAIMED = {
  "C11": dict(
    technique="runtime monitoring: reference-model monitor + algebraic-law monitor over exhaustive pool sweep and seeded random operand tuples",
-   text="Every operator method of the real value package is executed on every ordered pair of a boundary-value pool (exhaustive) and on seeded random tuples; each result is compared with an independent model of the README tables and with reference-free algebraic laws (symmetry, negation, relational consistency, slice/concat length laws). The same pool pairs are also run through compiled programs (operands injected as globals) in the plain opcode form and in the temp-register form of every operator. Held-on-what-was-observed; the pool sweeps are complete, the random part is a sample.",
+   text="Every operator method of the real value package is executed on every ordered pair of a boundary-value pool (exhaustive) and on seeded random tuples; each result is compared with an independent model of the README tables and with reference-free algebraic laws (symmetry, negation, relational consistency, slice/concat length laws). The same pool pairs are also run through compiled programs (operands injected as globals) in the plain opcode form and in the temp-register form of every operator, and with one or both operands written as literals (constant operands, folding) and as update statements on a global and on a local (v = v op k, v = k op v, the shapes the compiler has shortcuts for) with the variable read back. Held-on-what-was-observed; the pool sweeps are complete, the random part is a sample.",
    note="Trusts the harness model (harness/val) as the statement of the README tables; unspecified cells only demand 'documented error or right-shaped value, no crash'. Go's IEEE-754 float semantics trusted.",
    design="6/C11"),
  "C01": dict(
@@ -17,7 +17,7 @@ CLAIMED = {
    design="6/C01"),
  "C02": dict(
    technique="runtime monitoring: trace-specification checker over recorded yield/resume/body event logs of instrumented generator pipelines (reference-free laws + list model) + differential reference-model monitor, four allocation stress modes",
-   text="Generator pipelines (leaf, map, filter, chain, take, nest, relay, zip) written in calc with every yield bracketed by trace writes are consumed by loops at top level, in functions, at recursion depth, after other (composed) loops of the same statement and with early returns; the event log must satisfy the suspension-stack, body-after-yield, resume-after-body, exactly-once and abandon laws and match a list model. The same pipelines untraced (also with directly nested consumers), generator-heavy typed sessions and a yield-operand family (global/captured/local/parameter/constant/expression operands with bodies that reassign them) are compared with the reference semantics.",
+   text="Generator pipelines (leaf, map, filter, chain, take, nest, relay, zip) written in calc with every yield bracketed by trace writes are consumed by loops at top level, in functions, at recursion depth, after other (composed) loops of the same statement and with early returns; the event log must satisfy the suspension-stack, body-after-yield, resume-after-body, exactly-once and abandon laws and match a list model. The same pipelines untraced (also with directly nested consumers), generator-heavy typed sessions and a yield-operand family (global/captured/local/parameter/constant/expression operands with bodies that reassign them and generators that recurse 0..180 deep between their yields) are compared with the reference semantics.",
    note="Trace laws need no model of calc; the list model of constant-leaf pipelines and harness/rs are trusted for the value sequences.",
    design="6/C02"),
  "C03": dict(
@@ -27,7 +27,7 @@ CLAIMED = {
    design="6/C03"),
  "C04": dict(
    technique="runtime monitoring: differential reference-model monitor + globals-frame monitor (complete global frame compared after every statement) + caller-frame self-checks executed by the program under test",
-   text="Name-pressure sessions reuse 2..5 names as global/parameter/local/for-variable/captured/inner local across three nesting levels; each function snapshots every visible name before and after each call it makes (any difference prints a DIFF marker), updates captured variables between calls, and lets closures escape directly, in arrays and in arrays of arrays, which are then called after deep recursion overwrote the dead frames; all observations are compared with the reference and the whole global frame is compared after every statement.",
+   text="Name-pressure sessions reuse 2..5 names as global/parameter/local/for-variable/captured/inner local across three nesting levels; each function snapshots every visible name before and after each call it makes (any difference prints a DIFF marker), updates captured variables between calls, and lets closures escape directly, in arrays and in arrays of arrays, which are then called after deep recursion overwrote the dead frames; loop bounds are computed from the outer variable that has the loop variable's name; closure-plumbing sessions (hof family) define sibling closures in one call, route them through other functions (returned unchanged, picked, wrapped in a capturing closure, yielded by a generator and returned out of the consuming loop) while the defining call is live and its variables change, let them escape, and call them again after other calls, deep recursion and recycled iterator contexts; all observations are compared with the reference and the whole global frame is compared after every statement.",
    note="Names are declared before any loop of a function body so static and dynamic lookup cannot differ (agreed region rule 1).",
    design="6/C04"),
  "C05": dict(
@@ -42,7 +42,7 @@ CLAIMED = {
    design="6/C09"),
  "C10": dict(
    technique="runtime monitoring: shadow-copy invariant monitor (every value ever produced is deep-copied and re-compared after every operation) over value-package operation histories + globals-frame differential on structure-sharing sessions",
-   text="Histories of concatenations, slices, element reads and NewArray over existing values run on the real value package with up to 64 live values re-read after every operation against their deep copies and a model; array/string sessions that share structure (slices of slices, concat onto slices with spare capacity, partially constant literals, literal-returning functions, recursion on slices, generator prefixes, closures holding slices) have their whole global frame compared with the reference after every statement.",
+   text="Histories of concatenations, slices, element reads and NewArray over existing values run on the real value package with up to 64 live values re-read after every operation against their deep copies and a model; array/string sessions that share structure (slices of slices, concat onto slices with spare capacity, partially constant literals, literal-returning functions, recursion on slices, generator prefixes, closures holding slices) have their whole global frame compared with the reference after every statement; closure-plumbing sessions (arrays/strings captured by sibling closures and by closures a generator yields, routed through other functions and called again after other calls, deep recursion and recycled iterator contexts) are compared the same way.",
    note="ARR (array literal building) is reached only through programs; shadow copies use the harness value type.",
    design="6/C10"),
  "C08": dict(
@@ -92,12 +92,12 @@ CLAIMED = {
    design="6/C16"),
  "C17": dict(
    technique="runtime monitoring: contract monitors on injected values (render/round-trip laws evaluated by the program under test), list-model monitor for generator built-ins, enumerated misuse matrix, read() line-sequence monitor in-process and over real processes (pipe, file, FIFO, strace-injected EIO)",
-   text="Random and boundary ints/floats/strings/nested arrays injected as globals: write(x) == write(toa(x)) == toa(x) == reference rendering and aton(toa(n)) == n; fromto/elems/indices collected by loops against plain lists; every built-in with 0..3 arguments of 9 kinds must fail exactly when its contract says so; successive read() calls must return successive lines then a read error, in-process and with the real binary reading a pipe, a file, a chunk-fed FIFO and a file with an injected EIO.",
+   text="Random and boundary ints/floats/strings (incl. format verbs)/nested arrays injected as globals: write(x) == write(toa(x)) == toa(x) == reference rendering and aton(toa(n)) == n; fromto/elems/indices collected by loops against plain lists; every built-in with 0..3 arguments of 9 kinds must fail exactly when its contract says so; successive read() calls must return successive lines then a read error, in-process and with the real binary reading a pipe, a file, a chunk-fed FIFO and a file with an injected EIO.",
    note="Float rendering = Go shortest round-trip formatting; input always ends with a newline; after an injected EIO only 'reported, process alive, script continues' is demanded.",
    design="6/C17"),
  "C19": dict(
    technique="runtime monitoring: trace-specification checker over the recorded error report (parsed) against the reference semantics' call/coroutine trace and the step hook's last dispatched instruction",
-   text="Failing statements of every error class at call depth up to 200, in loops, (nested) generators, pipeline stage functions, closures, function-valued parameters and built-ins, each session ending in two more failing statements; the printed report is parsed and checked: header class, marked instruction equals the hook's last dispatched instruction and belongs to the failing operation's opcode family, every listed line shows the word that is at that address and its independent disassembly, listed operands are an ordered subset of the operands the operation saw, one context block per active coroutine with call-site names, argument counts and current argument values innermost first; never 'giving up', never a panic.",
+   text="Failing statements of every error class at call depth up to 200, in loops, (nested) generators, pipeline stage functions, closures, function-valued parameters and built-ins, calls whose parameters and operands hold awkward values (arrays of 8..12 elements starting with empty strings, format verbs, renderings around the 20 character abbreviation limit), each session ending in two more failing statements; the printed report is parsed and checked: header class, marked instruction equals the hook's last dispatched instruction and belongs to the failing operation's opcode family, every listed line shows the word that is at that address and its independent disassembly, listed operands are an ordered subset of the operands the operation saw, one context block per active coroutine with call-site names, argument counts and current argument values innermost first; never 'giving up', never a panic.",
    note="Operand-list completeness is not demanded; values are compared in the report's own 20-character abbreviation; a nil operand may be reported by the MOV that loads it.",
    design="6/C19"),
 }
